@@ -281,8 +281,9 @@ func init() {
 	// ------------------------------------------------------------------ C02
 	register("C02", func(c *engine.Ctx) {
 		c.Rule = "random structured schemas (tree fragment, plus formats) with schema-directed VALID documents (boundary values of every constraint, optional properties present or absent, null where allowed, nested objects and arrays); every document the reference calls valid must be accepted and every non-empty declared value must re-appear unchanged, at the same place, in json.Marshal of the decoded value. Near-duplicates: pairs of schema nodes whose Go type names collide (sibling properties, definitions, definition vs property, array items) and whose schemas differ in exactly one keyword (24 perturbations: format, type, each bound, required, enum members, items, default, nullable, annotation only, identical), both orders, documents valid for the one and for the other at both positions. The broad random stream (all features, mutated documents) additionally ties model and implementation. Distinct = distinct (stream, verdicts, document shape)."
-		c.Proofs([]string{"GJS.Props.C02"}, []string{
-			"GJS.Props.C02.prim_roundtrip", "GJS.Props.C02.validators_only_reject_on_constraints",
+		c.Proofs([]string{"GJS.Props.C02", "GJS.Proofs.Mono"}, []string{
+			"GJS.Props.C02.prim_roundtrip", "GJS.Props.C02.validators_only_reject_on_constraints", "GJS.Props.C02.unmarshal_accept_stable",
+			"GJS.Props.C02.rejected_forever_not_accepted", "GJS.Proofs.decode_ok_mono", "GJS.Proofs.okMono",
 			"GJS.Props.C02.numeric_accepts_valid_float", "GJS.Props.C02.string_accepts_valid_ascii", "GJS.Props.C02.array_accepts_valid",
 		})
 		o := treeOpts()
